@@ -140,6 +140,11 @@ pub fn run(case: &Value, ctx: &Ctx) -> Outcome {
             }
             // the same fold delivered with -o onto a file that holds an older, LONGER result: the file must hold exactly what
             // stdout got (a folded spectrum with a stale tail is another spectrum, or none)
+            if fname == "zero" && r.ok() && which == 0 {
+                // stdout is dead from the first byte (a full device): the fold must end in a diagnosed error, not in success
+                let d = cli::sfs_dead_stdout(ctx, &["fold", "--fill", fname, "--precision", "1"], &text, "enospc");
+                out.check(!d.ok() && !d.panicked() && !d.stderr.trim().is_empty(), || "fold/cli/dead-sink".into(), || json!({"code": d.code, "stderr": d.stderr}));
+            }
             if fname == "zero" && r.ok() {
                 let (f, left) = cli::sfs_onto_stale_file(ctx, &["fold", "--fill", fname, "--precision", "1"], &text, "fold");
                 out.check(f.ok() && !left && f.stdout == r.stdout, || "fold/cli/stale-destination".into(),
